@@ -454,8 +454,9 @@ class Sut(object):
                 raise Violation('%s-accepts-foreign-segment' % k, txt)
             idx = 0
             for i, c in enumerate(mnode.children):
-                # map order: position first, then - among siblings of one position - the order in which the map lists them
-                if _map_order(c.x) <= _map_order(xn):
+                # map order: position first, then - for an added LOOP among sibling loops of one position - the order in which
+                # the map lists them (segments of one position are order-free)
+                if (_map_order(c.x) <= _map_order(xn)) if k == 'add_loop' else (c.x.pos <= xn.pos):
                     idx = i + 1
             sid, elems = x12ref.snapshot(sd)
             if k == 'add_segment':
